@@ -1,0 +1,75 @@
+//! Verification hooks. Compiled only with `--cfg fe2o3_amqp_verif`.
+//!
+//! A *schedule point* is an awaitable gate placed between two steps of the library whose
+//! interleaving with another task matters. It does nothing unless a test harness has armed a
+//! gate of that name; when armed, the task reaching the point parks until the harness releases
+//! it, so the harness can run the other task in between.
+
+use std::sync::{
+    atomic::{AtomicUsize, Ordering},
+    Arc, Mutex,
+};
+
+use tokio::sync::Notify;
+
+/// A named gate
+#[derive(Debug, Default)]
+pub struct Gate {
+    /// Number of times the point was reached while armed
+    pub hits: AtomicUsize,
+    reached: Notify,
+    release: Notify,
+}
+
+impl Gate {
+    /// Wait until a task has reached the point
+    pub async fn reached(&self) {
+        self.reached.notified().await
+    }
+
+    /// Let the parked task continue
+    pub fn release(&self) {
+        self.release.notify_one()
+    }
+}
+
+static GATES: Mutex<Vec<(String, Arc<Gate>)>> = Mutex::new(Vec::new());
+
+/// Arm the gate `name`
+pub fn arm(name: &str) -> Arc<Gate> {
+    let gate = Arc::new(Gate::default());
+    let mut gates = GATES.lock().unwrap();
+    gates.retain(|(n, _)| n != name);
+    gates.push((name.to_string(), gate.clone()));
+    gate
+}
+
+/// Disarm the gate `name` (a task parked at it is released)
+pub fn disarm(name: &str) {
+    let mut gates = GATES.lock().unwrap();
+    if let Some(i) = gates.iter().position(|(n, _)| n == name) {
+        let (_, gate) = gates.remove(i);
+        gate.release.notify_one();
+    }
+}
+
+/// Disarm everything
+pub fn disarm_all() {
+    let mut gates = GATES.lock().unwrap();
+    for (_, gate) in gates.drain(..) {
+        gate.release.notify_one();
+    }
+}
+
+/// A schedule point: a no-op unless the gate `name` is armed
+pub async fn point(name: &str) {
+    let gate = {
+        let gates = GATES.lock().unwrap();
+        gates.iter().find(|(n, _)| n == name).map(|(_, g)| g.clone())
+    };
+    if let Some(gate) = gate {
+        gate.hits.fetch_add(1, Ordering::SeqCst);
+        gate.reached.notify_one();
+        gate.release.notified().await;
+    }
+}
